@@ -246,6 +246,8 @@ class Fn:
             f = {ast.Gt: "(Qltb %s %s)", ast.GtE: "(Qleb %s %s)"}.get(op)
             if f:
                 return f % (qb, qa), BOOL
+        if ta == INTLIST and tb == INT and op in (ast.Lt, ast.Eq):
+            return "(map (fun x_ => %s) %s)" % (("(x_ <? %s)" if op is ast.Lt else "(x_ =? %s)") % b, a), BOOLLIST
         if ta == STR and tb == STR and op is ast.Eq:
             return "(String.eqb %s %s)" % (a, b), BOOL
         if ta == IDL and tb == IDL and op is ast.Eq:
@@ -580,6 +582,17 @@ class Fn:
             r = self.fresh()
             binds.append((r, "py_min_diff (cfgs %s)" % t))
             return r, INT
+        if dotted == "np.any" and len(node.args) == 1:
+            t, ty = self.expr(node.args[0], env, binds)
+            if ty != BOOLLIST:
+                raise TranslateError("%s: np.any(%s)" % (self.name, ty))
+            return "(existsb (fun b : bool => b) %s)" % t, BOOL
+        if dotted == "np.unique" and len(node.args) == 1 and isinstance(node.args[0], ast.Call) and len(node.args[0].args) == 1 \
+                and _d(node.args[0].func) == _d(ast.parse("np.diff", mode="eval").body):
+            t, ty = self.expr(node.args[0].args[0], env, binds)
+            if ty != IDL:
+                raise TranslateError("%s: np.unique(np.diff(%s))" % (self.name, ty))
+            return "(zsort_set (diffs (cfgs %s)))" % t, INTLIST
         if dotted == "np.all" and len(node.args) == 1:
             t, ty = self.expr(node.args[0], env, binds)
             if ty != BOOLLIST:
@@ -923,6 +936,23 @@ def frag_drho(fn):
     return [body[0], ast.Return(value=v.args[0])]
 
 
+def frag_init_idl_list(fn):
+    """Obs.__init__: the branch `elif isinstance(idx, (list, np.ndarray)):` of the loop that stores idl; `self.idl[name] = X` becomes `return X`."""
+    want = _d(ast.parse("isinstance(idx, (list, np.ndarray))", mode="eval").body)
+    found = [n for n in ast.walk(fn) if isinstance(n, ast.If) and _d(n.test) == want]
+    if len(found) != 1:
+        raise TranslateError("Obs.__init__: the branch for list-type idl was not found exactly once")
+
+    class R(ast.NodeTransformer):
+        def visit_Assign(self, node):
+            if len(node.targets) == 1 and _d(node.targets[0]).replace("Store()", "Load()") == _d(ast.parse("self.idl[name]", mode="eval").body):
+                return ast.Return(value=node.value)
+            return node
+    import copy
+    body = [R().visit(copy.deepcopy(st)) for st in found[0].body]
+    return body
+
+
 def frag_import_jack_samples(fn):
     """The statements of import_jackknife up to `samples = jacks[1:] @ prj`, returning samples."""
     body = [st for st in fn.body if not (isinstance(st, ast.Expr) and isinstance(st.value, ast.Constant))]
@@ -970,6 +1000,8 @@ SIGS = [
          env={"w_max": INT, "e_N": INT, "i": INT}, aliases={"self.e_rho[e_name]": ("v_rho", ARR)}),
     dict(coq="import_jackknife_samples", py="import_jackknife", fragment=frag_import_jack_samples, params=[], ret=ARR,
          extra_params=[("v_jacks", ARR)], env={"jacks": ARR}),
+    dict(coq="obs_init_idl_from_list", py="Obs.__init__", fragment=frag_init_idl_list, params=[], ret=IDL,
+         extra_params=[("v_idx", IDL)], env={"idx": IDL}),
     dict(coq="_reduce_deltas", py="_reduce_deltas", params=[("deltas", ARR), ("idx_old", IDL), ("idx_new", IDL)], ret=ARR),
     dict(coq="covariance_calc_gamma", py="_covariance_element.calc_gamma", needs=["_reduce_deltas"],
          params=[("deltas1", ARR), ("deltas2", ARR), ("idx1", IDL), ("idx2", IDL), ("new_idx", IDL)], ret=FLOAT),
